@@ -205,13 +205,41 @@ def rule_ignore_first(ctx, prop):
                 if any(re.search(r"surrounding_trivia$|leading_trivia$", c) for c in src) and \
                         not any(re.search(r"::lines$", c) for c in src):
                     heads.append(b)
-        if not rep.anchor(len(heads) == 1, f"the loop over the node's leading trivia ({len(heads)} candidates)", cfg):
-            continue
-        hb = heads[0]
-        nb = f.blocks[hb]["term"].get("t")
-        si = switch_info(f, nb) if nb is not None else None
-        done = si["targets"].get("None") if si else None
-        if not rep.anchor(done is not None, "exit edge of the leading-trivia loop", cfg):
+        done = None
+        if len(heads) == 1:
+            hb = heads[0]
+            nb = f.blocks[hb]["term"].get("t")
+            si = switch_info(f, nb) if nb is not None else None
+            done = si["targets"].get("None") if si else None
+        elif not heads:
+            # iterator form: `leading_trivia.iter().flat_map(lines).any(|line| line == "stylua: ignore")` - the scan has
+            # completed without a hit on the false edge of the quantifier's answer
+            def deep(o, depth=0, seen=None):
+                seen = set() if seen is None else seen
+                out = set()
+                if depth > 10:
+                    return out
+                for r in provenance(f, o, through=None):
+                    if r[0] == "call" and r[2] not in seen:
+                        seen.add(r[2])
+                        out.add(r[1])
+                        tt = f.blocks[r[2]]["term"]
+                        if tt["args"]:
+                            out |= deep(tt["args"][0], depth + 1, seen)
+                return out
+            quants = []
+            for b, t in f.calls():
+                m = re.search(r"Iterator>?::(any|all)$", callee(t))
+                if m and t["args"] and any(re.search(r"surrounding_trivia$|leading_trivia$", c) for c in deep(t["args"][0])):
+                    quants.append((b, m.group(1)))
+            if len(quants) == 1:
+                from facts import bool_edge
+                be = bool_edge(f, quants[0][0])
+                if be:
+                    done = be[1] if quants[0][1] == "any" else be[0]
+        if done is None:
+            # the scan is written in a form this clause does not read: nothing is claimed (no alarm on a shape)
+            rep.notes.append(f"[{cfg}] directive scan of should_format_node not in loop / any() form: order clause not evaluated")
             continue
         n = 0
         for b, si_, s in f.stmts():
